@@ -142,7 +142,7 @@ class C19(Prop):
 
     def run_impl(self, case):
         from preflibtools.properties.subdomains.ordinal.euclidean import is_one_euclidean
-        inst = gen.strict_case_instance(case, lambda i: is_one_euclidean(i, limit=60))
+        inst = gen.strict_case_instance(case, is_one_euclidean)
         self.count("built:" + ("grown" if case.get("grow") else "direct") + ("+mult" if case.get("mults") else ""))
         from harness import ilpcap
         store = []
